@@ -128,3 +128,51 @@ def run(ctx):
             ctx.violation("C19.R4", what, lo.where(), f"load_schema_ordered: returns {sorted(texts)}; injection into {[norm(c.args[0]) for c in inj if c.args]}", why)
         else:
             ctx.unrecognised("C19.R4", "load_schema_ordered", lo.where(), f"result selection `{sorted(texts)}` is not a known spelling of 'last element of {L}'")
+
+    # ---- R5 the "already injected" state is threaded through sibling positions ---------------------------------
+    ctx.rule("C19.R5", "inside every loop over sibling positions (union branches, record fields) the injected flag passed to the recursive call is updated from that call's result before the next sibling", floor=2)
+    icfg = cfg_of(inj_f)
+    pm = a.parents(inj_f.mod)
+    flagpos = 3
+    n_loops = 0
+    for c in ast.walk(inj_f.node):
+        if not (isinstance(c, ast.Call) and isinstance(c.func, ast.Name) and c.func.id == inj_f.name):
+            continue
+        # innermost enclosing loop construct
+        q = pm.get(id(c))
+        loop = None
+        while q is not None and q is not inj_f.node:
+            if isinstance(q, (ast.For, ast.While, ast.ListComp, ast.SetComp, ast.DictComp, ast.GeneratorExp)):
+                loop = q
+                break
+            q = pm.get(id(q))
+        if loop is None:
+            continue
+        n_loops += 1
+        flag = c.args[flagpos] if len(c.args) > flagpos else next((k.value for k in c.keywords if k.arg == inj_f.pos_params[flagpos]), None)
+        inst = f"_inject_schema: recursive call in a loop at line {getattr(c, 'lineno', 0)} threads the injected flag"
+        why = "the loaded type is inlined at every sibling that refers to it instead of only at the first one: the resulting schema defines the type twice and no longer equals the inlined original"
+        if not isinstance(loop, (ast.For, ast.While)):
+            ctx.violation("C19.R5", inst, inj_f.where(c), f"_inject_schema: {norm(c)[:80]} inside a comprehension (the flag cannot change between elements)", why)
+            continue
+        if not isinstance(flag, ast.Name):
+            ctx.unrecognised("C19.R5", "_inject_schema", inj_f.where(c), f"flag argument `{norm(flag) if flag is not None else None}` is not a local variable")
+            continue
+        # names bound to the second result of a recursive call inside this loop
+        second = set()
+        for n in ast.walk(loop):
+            if isinstance(n, ast.Assign) and isinstance(n.value, ast.Call) and isinstance(n.value.func, ast.Name) and n.value.func.id == inj_f.name and isinstance(n.targets[0], ast.Tuple) and len(n.targets[0].elts) == 2 and isinstance(n.targets[0].elts[1], ast.Name):
+                second.add(n.targets[0].elts[1].id)
+        updates = [n for n in ast.walk(loop) if isinstance(n, ast.Assign) and any(isinstance(t, ast.Name) and t.id == flag.id for t in n.targets) and (names_in(n.value) & second or isinstance(n.value, ast.Constant) and n.value.value is True)]
+        direct = flag.id in second
+        cn = icfg.node_of(c)
+        reach = icfg.reachable_from(cn, skip_labels=("exc",))
+        ok = direct or any(icfg.node_of(u) in reach for u in updates)
+        if ok:
+            ctx.holds("C19.R5", inst, inj_f.where(c))
+        elif not updates and not direct:
+            ctx.violation("C19.R5", inst, inj_f.where(c), f"_inject_schema: `{flag.id}` is never updated from the recursive result inside the loop", why)
+        else:
+            ctx.unrecognised("C19.R5", "_inject_schema", inj_f.where(c), "flag update not reachable from the call")
+    if n_loops < 2:
+        ctx.unrecognised("C19.R5", "_inject_schema", inj_f.where(), f"{n_loops} recursive calls inside loops (expected the union and the record-fields loops)")
